@@ -7,7 +7,7 @@
 (* failure (never as a pass): inputs of all models are chosen so that      *)
 (* numerators and denominators stay far below 2^31.                        *)
 (***************************************************************************)
-EXTENDS Integers, Sequences, FiniteSets, Folds
+EXTENDS Integers, Sequences, FiniteSets, Folds, TLC
 
 RECURSIVE GCD(_, _)
 GCD(a, b) == IF b = 0 THEN a ELSE GCD(b, a % b)
@@ -36,46 +36,56 @@ IsRat(q)   == /\ q \in Int \X Int
 \* with it is FALSE - so no predicate can be satisfied by accident and TLC never aborts
 \* with an overflow error.
 NaR        == <<0, 0>>
+\* a second non-number, <<1, 0>>: "exact value unknown" - a finite observation that could not be
+\* lifted to a small rational, or an intermediate result that leaves the 32-bit range.  Using it
+\* in arithmetic raises TLC register 7, so that a trace spec can report the clause as
+\* "undecided" instead of giving a verdict; like NaR it is unequal to every rational.
+Unknown    == <<1, 0>>
+IsNaN(a)   == a = NaR
+Overflow   == IF TLCSet(7, TRUE) THEN Unknown ELSE Unknown
+\* result of an operation one of whose operands is not a number
+Bad(a, b)  == IF a = NaR \/ b = NaR THEN NaR ELSE Overflow
 IsNaR(a)   == a[2] = 0
 MaxInt     == 2147483647
 MulOK(x, y) == x = 0 \/ y = 0 \/ IAbs(x) <= MaxInt \div IAbs(y)
 AddOK(x, y) == IF x >= 0 /\ y >= 0 THEN x <= MaxInt - y
                ELSE IF x < 0 /\ y < 0 THEN x >= (-MaxInt) - y ELSE TRUE
 
-RNeg(a)    == <<-a[1], a[2]>>
+RNeg(a)    == IF IsNaR(a) THEN a ELSE <<-a[1], a[2]>>
 \* cross-cancelling keeps intermediate products small
-RAdd(a, b) == IF IsNaR(a) \/ IsNaR(b) THEN NaR
+RAdd(a, b) == IF IsNaR(a) \/ IsNaR(b) THEN Bad(a, b)
               ELSE IF a[1] = 0 THEN b ELSE IF b[1] = 0 THEN a ELSE
               LET g == GCD(a[2], b[2])
                   bd == b[2] \div g
                   ad == a[2] \div g
               IN  IF MulOK(a[1], bd) /\ MulOK(b[1], ad) /\ MulOK(a[2], bd)
                      /\ AddOK(a[1] * bd, b[1] * ad)
-                  THEN Norm(a[1] * bd + b[1] * ad, a[2] * bd) ELSE NaR
+                  THEN Norm(a[1] * bd + b[1] * ad, a[2] * bd) ELSE Overflow
 RSub(a, b) == RAdd(a, RNeg(b))
-RMul(a, b) == IF IsNaR(a) \/ IsNaR(b) THEN NaR
+RMul(a, b) == IF IsNaR(a) \/ IsNaR(b) THEN Bad(a, b)
               ELSE IF a[1] = 0 \/ b[1] = 0 THEN RZero ELSE
               LET g1 == GCD(IAbs(a[1]), b[2])
                   g2 == GCD(IAbs(b[1]), a[2])
                   n1 == a[1] \div g1   n2 == b[1] \div g2
                   d1 == a[2] \div g2   d2 == b[2] \div g1
-              IN  IF MulOK(n1, n2) /\ MulOK(d1, d2) THEN <<n1 * n2, d1 * d2>> ELSE NaR
-RInv(a)    == IF a[1] > 0 THEN <<a[2], a[1]>> ELSE IF a[1] < 0 THEN <<-a[2], -a[1]>> ELSE NaR
+              IN  IF MulOK(n1, n2) /\ MulOK(d1, d2) THEN <<n1 * n2, d1 * d2>> ELSE Overflow
+RInv(a)    == IF IsNaR(a) THEN Bad(a, a)
+              ELSE IF a[1] > 0 THEN <<a[2], a[1]>> ELSE IF a[1] < 0 THEN <<-a[2], -a[1]>> ELSE NaR
 RDiv(a, b) == RMul(a, RInv(b))
 RSq(a)     == RMul(a, a)
 RCube(a)   == RMul(a, RMul(a, a))
 
 RSign(a)   == IF a[1] > 0 THEN 1 ELSE IF a[1] < 0 THEN -1 ELSE 0
 RIsZero(a) == a[1] = 0 /\ a[2] # 0
-RPos(a)    == a[1] > 0
-RNegv(a)   == a[1] < 0
+RPos(a)    == ~IsNaR(a) /\ a[1] > 0
+RNegv(a)   == ~IsNaR(a) /\ a[1] < 0
 RLt(a, b)  == LET d == RSub(b, a) IN ~IsNaR(d) /\ d[1] > 0
 RLe(a, b)  == LET d == RSub(b, a) IN ~IsNaR(d) /\ d[1] >= 0
 RGt(a, b)  == RLt(b, a)
 RGe(a, b)  == RLe(b, a)
-RMin(a, b) == IF IsNaR(a) \/ IsNaR(b) THEN NaR ELSE IF RLe(a, b) THEN a ELSE b
-RMax(a, b) == IF IsNaR(a) \/ IsNaR(b) THEN NaR ELSE IF RLe(a, b) THEN b ELSE a
-RAbs(a)    == <<IAbs(a[1]), a[2]>>
+RMin(a, b) == IF IsNaR(a) \/ IsNaR(b) THEN Bad(a, b) ELSE IF RLe(a, b) THEN a ELSE b
+RMax(a, b) == IF IsNaR(a) \/ IsNaR(b) THEN Bad(a, b) ELSE IF RLe(a, b) THEN b ELSE a
+RAbs(a)    == IF IsNaR(a) THEN a ELSE <<IAbs(a[1]), a[2]>>
 
 RECURSIVE RPow(_, _)
 RPow(a, k) == IF k = 0 THEN ROne ELSE RMul(a, RPow(a, k - 1))   \* k \in Nat
